@@ -210,6 +210,11 @@ def read_pathlike(obj, owner: dict, ids: list[int], what: str, deep: bool):
             read_node(nd, owner, ids[k], f"{what}<iter {k}>", False)
             k += 1
         chk(k == n, "path_iter", f"{what}: iteration yields {k} nodes, expected {n}")
+        # the handles of one iteration kept alive together (list(view), zip, next() twice) and read afterwards
+        nodes = list(obj)
+        chk(len(nodes) == n, "path_iter", f"{what}: list(view) has {len(nodes)} nodes, expected {n}")
+        for k in range(n - 1, -1, -1):
+            read_node(nodes[k], owner, ids[k], f"{what}<list(view)[{k}]>", False)
 
 
 def read_branch_segments(obj, owner: dict, ids: list[int], what: str):
@@ -236,10 +241,16 @@ def read_tree(owner: dict, what: str):
         chk(got == m[col], "tree_read", f"{what}.get_ndata({col!r}) differs")
     got = np.asarray(tree.xyzr(), dtype=np.float64).tolist()
     chk(got == [[m["x"][i], m["y"][i], m["z"][i], m["r"][i]] for i in range(n)], "tree_read", f"{what}.xyzr() differs")
+    want = owner.get("comments", ["c"])
+    chk(list(tree.comments) == want, "tree_read", f"{what}.comments = {list(tree.comments)[:4]} expected {want[:4]}")
 
 
 def read_dict_owner(owner: dict, what: str):
     d, m = owner["obj"], owner["m"]
+    if "did" in m:
+        got = [int(np.asarray(d.get_ndata("id")).reshape(-1)[0]), int(np.asarray(d.get_ndata("pid")).reshape(-1)[0])]
+        chk(got == [m["did"][0], m["dpid"][0]], "detached_read",
+            f"{what}: id/pid of the detached node read {got}, expected {[m['did'][0], m['dpid'][0]]}")
     for col in attrs_of(owner):
         got = as_list(d.get_ndata(col), col)
         chk(got == m[col], "detached_read", f"{what}: column {col} = {got[:8]} expected {m[col][:8]}")
@@ -544,6 +555,17 @@ def execute(program: dict) -> dict:
                     if col == "level" and "level" not in o["m"]:
                         col = "type"
                     val = step["val"] % 8 if col in ("type", "level") else f32(step["val"] / 4.0)
+                    if "did" in o["m"] and step["val"] % 3 == 0:
+                        # renumber a detached node in place
+                        key = "id" if step["val"] % 2 else "pid"
+                        o["obj"].ndata[key][0] = step["val"] % 1000
+                        o["m"]["d" + key][0] = step["val"] % 1000
+                        world.probe("c09.detached_node_renumbered")
+                    if o["kind"] == "tree" and step["val"] % 5 == 0:
+                        # the header comments are content too: edited in place on one side of a copy
+                        o["obj"].comments.append(f"note {si}")
+                        o.setdefault("comments", ["c"])
+                        o["comments"] = o["comments"] + [f"note {si}"]
                     o["obj"].ndata[col][i] = val
                     o["m"][col][i] = val
                     if len(handles) >= 2:
@@ -559,7 +581,7 @@ def execute(program: dict) -> dict:
                     chk(list(c.comments) == list(o["obj"].comments) and c.source == o["obj"].source, "copy",
                         "copy() lost comments/source")
                     owners.append({"kind": o["kind"], "obj": c, "m": copy.deepcopy(o["m"]), "idpid": o["idpid"],
-                                   "made_by": "copy"})
+                                   "made_by": "copy", "comments": list(o.get("comments", ["c"]))})
                     world.log(si, "copy", oi)
                 elif k == "detach":
                     cands = [h for h in handles if h["kind"] in ("node", "path", "branch", "seg")]
@@ -571,6 +593,10 @@ def execute(program: dict) -> dict:
                     d = h["obj"].detach()
                     cur_op = f"detach:{h['kind']}"
                     m = {col: [o["m"][col][i] for i in h["ids"]] for col in attrs_of(o)}
+                    if h["kind"] == "node":
+                        # a detached node is a one-node table of its own: id 0, no parent - and its id / pid cells
+                        # are its own too (BranchTreeAssembler renumbers detached nodes in place)
+                        m["did"], m["dpid"] = [int(d["id"])], [int(d["pid"])]
                     chk(d is not h["obj"], "detach", "detach() returned the view itself")
                     owners.append({"kind": "dict", "obj": d.attach, "m": m, "idpid": False,
                                    "made_by": f"detach:{h['kind']}"})
@@ -660,7 +686,8 @@ def execute(program: dict) -> dict:
             violation = {"tag": "raised", "op": f"{cur_op}/{type(e).__name__}", "detail": f"{type(e).__name__}: {e}"[:400]}
             world.log("violation", "raised", cur_op, type(e).__name__)
         digest = world.digest()
-    return {"violation": violation, "digest": digest, "steps": steps, "faults": {}, "probes": {},
+        probes = dict(world.probes)
+    return {"violation": violation, "digest": digest, "steps": steps, "faults": {}, "probes": probes,
             "nontrivial": steps >= 3 and wrote_with_handles, "config": "fault_free", "states": states}
 
 
